@@ -700,3 +700,344 @@ func ruleKillCtx(c *Ctx) {
 		c.R.Undecided("R-EXIT/killctx", "", "instance-floor", fmt.Sprintf("only %d runner.Kill calls found, 2 expected (Start's cleanup, Client.Kill)", n))
 	}
 }
+
+// onlyObligations runs rule on a scratch report and keeps the obligations the
+// filter accepts (used to share one clause of a larger rule with another
+// property without importing its whole table).
+func onlyObligations(rule func(*Ctx), keep func(*Obligation) bool) func(*Ctx) {
+	return func(c *Ctx) {
+		tmp := NewReport(c.R.Prop, c.R.Tier)
+		rule(&Ctx{P: c.P, R: tmp, Thorough: c.Thorough})
+		for _, o := range tmp.Obs {
+			if keep(o) {
+				c.R.add(o)
+			}
+		}
+	}
+}
+
+// ---------- R-DEADLINE ----------
+
+// ruleDeadline — no absolute I/O deadline stays armed on a connection that
+// outlives the function. SetDeadline/SetReadDeadline/SetWriteDeadline take a
+// point in time, not a per-operation timeout: a deadline armed for a
+// negotiation and not cleared for the same direction fires later on a healthy
+// long-lived connection (writes fail with "i/o deadline reached", bytes are
+// lost). For every arming call, every path to the function's exit must pass a
+// call that clears that direction on the same connection (zero time), or
+// close the connection.
+func ruleDeadline(c *Ctx) {
+	p := c.P
+	n := 0
+	for _, f := range p.Funcs {
+		if !notTesting(p, f) {
+			continue
+		}
+		info := f.Pkg.TypesInfo
+		g := p.Graph(f)
+		type dl struct {
+			node  *Node
+			conn  string
+			dirs  string // "R", "W" or "RW"
+			clear bool
+			call  *ast.CallExpr
+		}
+		var calls []dl
+		for _, call := range f.Calls() {
+			se, ok := ast.Unparen(call.Fun).(*ast.SelectorExpr)
+			if !ok || len(call.Args) != 1 {
+				continue
+			}
+			dirs := ""
+			switch se.Sel.Name {
+			case "SetDeadline":
+				dirs = "RW"
+			case "SetReadDeadline":
+				dirs = "R"
+			case "SetWriteDeadline":
+				dirs = "W"
+			default:
+				continue
+			}
+			if sig, ok := info.TypeOf(call.Fun).(*types.Signature); !ok || sig.Params().Len() != 1 || sig.Params().At(0).Type().String() != "time.Time" {
+				continue
+			}
+			zero := false
+			if cl, ok := ast.Unparen(call.Args[0]).(*ast.CompositeLit); ok && len(cl.Elts) == 0 {
+				zero = true
+			}
+			calls = append(calls, dl{g.NodeOf(call), exprStr(se.X), dirs, zero, call})
+		}
+		for _, a := range calls {
+			if a.clear || a.node == nil {
+				continue
+			}
+			n++
+			for _, dir := range []string{"R", "W"} {
+				if !strings.Contains(a.dirs, dir) {
+					continue
+				}
+				cleared := func(m *Node) bool {
+					for _, b := range calls {
+						if b.node == m && b.clear && b.conn == a.conn && strings.Contains(b.dirs, dir) {
+							return true
+						}
+					}
+					// closing the connection ends its life
+					for _, call := range callsIn(m.Ast) {
+						if se, ok := ast.Unparen(call.Fun).(*ast.SelectorExpr); ok && se.Sel.Name == "Close" && exprStr(se.X) == a.conn {
+							return true
+						}
+					}
+					return false
+				}
+				seen := g.ReachAfter(a.node, cleared, nil)
+				name := map[string]string{"R": "read", "W": "write"}[dir]
+				if _, leaks := seen[g.Exit]; leaks {
+					c.R.Violate("R-DEADLINE", p.Pos(a.call), f.Name, name+" deadline on "+a.conn,
+						"an absolute "+name+" deadline is armed on the connection and there is a path to the function's exit on which it is neither cleared for that direction nor the connection closed: the deadline fires later on the healthy connection and "+name+"s fail (data lost, calls cut short)", p.PathTo(seen, g.Exit))
+				} else {
+					c.R.Hold("R-DEADLINE", p.Pos(a.call), f.Name, name+" deadline on "+a.conn, "cleared or connection closed on every path to the exit", true)
+				}
+			}
+		}
+	}
+	if n == 0 {
+		c.R.Hold("R-DEADLINE", "-", "", "no absolute I/O deadline is armed anywhere in scope", "0 SetDeadline/SetReadDeadline/SetWriteDeadline calls with a non-zero time", false)
+	}
+}
+
+// ---------- R-ID/role ----------
+
+// ruleIDRoles — the gRPC broker keeps two pending tables keyed by id, one per
+// role: serverStreams for ids this side accepted (its own NextId namespace),
+// clientStreams for ids this side dials (the peer's namespace). Both sides
+// count from 1, so equal numbers denote different connections: code acting in
+// one role must never touch the other role's table. Accept-side functions
+// (and everything they call or start) may only access serverStreams;
+// dial-side functions only clientStreams.
+func ruleIDRoles(c *Ctx) {
+	p := c.P
+	roles := []struct {
+		roots  []string
+		forbid string
+		role   string
+	}{
+		{[]string{"GRPCBroker.Accept", "GRPCBroker.AcceptAndServe", "GRPCBroker.listenForKnocks"}, "GRPCBroker.clientStreams", "accept"},
+		{[]string{"GRPCBroker.DialWithOptions", "GRPCBroker.Dial", "GRPCBroker.knock", "GRPCBroker.muxDial", "GRPCBroker.timeoutWait"}, "GRPCBroker.serverStreams", "dial"},
+	}
+	for _, r := range roles {
+		var roots []*Func
+		for _, nm := range r.roots {
+			if f := p.Fn(nm); f != nil {
+				roots = append(roots, f)
+			} else {
+				c.R.Undecided("R-ID/role", nm, "anchor", "function not found")
+			}
+		}
+		reach := p.ReachableFuncs(roots, true)
+		bad := false
+		for rf := range reach {
+			// a callee shared by both roles (Run is not reachable from either) is fine as long as it does not touch the table
+			for _, a := range p.fieldAccesses(rf, func(v *types.Var) bool { return v.IsField() && p.FieldName(v) == r.forbid }) {
+				bad = true
+				c.R.Violate("R-ID/role", p.Pos(a.sel), rf.Name, r.role+"-side code touches "+r.forbid,
+					"code reachable from the "+r.role+" side of the broker accesses the other role's pending table: the two id namespaces overlap numerically, so this disturbs an unrelated connection with the same number (lost ack / stale knock)", nil)
+			}
+		}
+		if !bad {
+			c.R.Hold("R-ID/role", "-", strings.Join(r.roots, ","), r.role+"-side code never touches "+r.forbid, fmt.Sprintf("%d functions reachable from the %s side inspected", len(reach), r.role), true)
+		}
+	}
+}
+
+// ---------- R-ORDER/stdio: chunks are forwarded by the loop that received them ----------
+
+// ruleStdioSequential — every loop on the synced-stdio path forwards the chunk
+// it just received itself, in the same goroutine: no `go` statement inside the
+// loop body. (Handing each chunk to a fresh goroutine lets later chunks of the
+// same stream overtake earlier ones: bytes arrive out of order.)
+func ruleStdioSequential(c *Ctx) {
+	p := c.P
+	n := 0
+	for _, nm := range []string{"grpcStdioClient.Run", "grpcStdioServer.StreamStdio", "copyChan", "copyStream", "Client.logStderr"} {
+		f := p.Fn(nm)
+		if f == nil {
+			c.R.Undecided("R-ORDER/stdio", nm, "anchor", "function not found")
+			continue
+		}
+		loops := 0
+		bad := false
+		walkNoLit(f.Body, func(x ast.Node) bool {
+			var body *ast.BlockStmt
+			switch l := x.(type) {
+			case *ast.ForStmt:
+				body = l.Body
+			case *ast.RangeStmt:
+				body = l.Body
+			}
+			if body == nil {
+				return true
+			}
+			loops++
+			ast.Inspect(body, func(y ast.Node) bool {
+				if gs, ok := y.(*ast.GoStmt); ok {
+					bad = true
+					c.R.Violate("R-ORDER/stdio", p.Pos(gs), f.Name, "chunk forwarded by the receiving loop",
+						"a goroutine is started per received chunk inside the forwarding loop: chunks of one stream can overtake each other, so output arrives out of order", nil)
+				}
+				return true
+			})
+			return true
+		})
+		n++
+		if !bad {
+			c.R.Hold("R-ORDER/stdio", p.Pos(f.Node()), f.Name, "chunk forwarded by the receiving loop", fmt.Sprintf("%d loop(s), no go statement inside", loops), false)
+		}
+	}
+	if n < 4 {
+		c.R.Undecided("R-ORDER/stdio", "", "instance-floor", "fewer than 4 functions of the stdio path found")
+	}
+}
+
+// ---------- R-SIB/runnerkill, R-ORDER/O1 path immutability ----------
+
+// ruleRunnerKill — sibling implementations of runner Kill in the module
+// (started process, reattached process) signal the process on every path:
+// the only way to return without calling os.Process.Kill is the edge on which
+// the *os.Process is nil (never started).
+func ruleRunnerKill(c *Ctx) {
+	p := c.P
+	n := 0
+	for _, f := range p.Funcs {
+		if f.Decl == nil || f.Obj == nil || f.Obj.Name() != "Kill" || f.Decl.Recv == nil || f.Pkg.PkgPath != modPath+"/internal/cmdrunner" {
+			continue
+		}
+		sig := f.Obj.Type().(*types.Signature)
+		if sig.Params().Len() != 1 || sig.Results().Len() != 1 || !isErrorType(sig.Results().At(0).Type()) {
+			continue
+		}
+		n++
+		info := f.Pkg.TypesInfo
+		g := p.Graph(f)
+		kills := func(m *Node) bool {
+			for _, call := range callsIn(m.Ast) {
+				switch p.CalleeName(f, call) {
+				case "os.Process.Kill", "os.Process.Signal":
+					return true
+				}
+			}
+			return false
+		}
+		procNil := func(e *Edge) bool {
+			at, ok := edgeAtom(info, e)
+			if !ok || at.Kind != "nil" || at.Op != token.EQL {
+				return false
+			}
+			t := info.TypeOf(at.X)
+			return t != nil && t.String() == "*os.Process"
+		}
+		seen := g.Reach([]*Node{g.Entry}, kills, procNil)
+		if _, miss := seen[g.Exit]; miss {
+			c.R.Violate("R-SIB/runnerkill", p.Pos(f.Node()), f.Name, "Kill signals the process", "there is a path through the runner's Kill that returns without calling os.Process.Kill although a process exists: Client.Kill then waits for an exit that never comes (or reports a live plugin as killed)", p.PathTo(seen, g.Exit))
+		} else {
+			c.R.Hold("R-SIB/runnerkill", p.Pos(f.Node()), f.Name, "Kill signals the process", "every path with a non-nil *os.Process calls os.Process.Kill", true)
+		}
+	}
+	if n < 2 {
+		c.R.Undecided("R-SIB/runnerkill", "", "instance-floor", fmt.Sprintf("only %d runner Kill implementations found in internal/cmdrunner, 2 expected", n))
+	}
+}
+
+// ruleCmdPathImmutable — nothing in the module assigns exec.Cmd.Path (or
+// exec.Cmd.Args): the file SecureConfig.Check hashed is the file that is
+// executed.
+func ruleCmdPathImmutable(c *Ctx) {
+	p := c.P
+	pathF := p.fieldByQualifiedName("os/exec", "Cmd", "Path")
+	argsF := p.fieldByQualifiedName("os/exec", "Cmd", "Args")
+	if pathF == nil {
+		c.R.Undecided("R-ORDER/O1", "exec.Cmd.Path", "anchor", "field not resolved")
+		return
+	}
+	bad := false
+	for _, f := range p.Funcs {
+		if !notTesting(p, f) {
+			continue
+		}
+		info := f.Pkg.TypesInfo
+		ast.Inspect(f.Body, func(x ast.Node) bool {
+			as, ok := x.(*ast.AssignStmt)
+			if !ok {
+				return true
+			}
+			for _, l := range as.Lhs {
+				fv := SelField(info, l)
+				if ix, isIx := ast.Unparen(l).(*ast.IndexExpr); isIx {
+					fv = SelField(info, ix.X)
+					if fv != argsF {
+						fv = nil
+					}
+				}
+				if fv != nil && (fv == pathF || fv == argsF) {
+					bad = true
+					c.R.Violate("R-ORDER/O1", p.Pos(as), f.Name, "the verified command path is what is executed", "the module rewrites exec.Cmd."+fv.Name()+" of the caller's command: the file that is executed need not be the file SecureConfig.Check hashed", nil)
+				}
+			}
+			return true
+		})
+	}
+	if !bad {
+		c.R.Hold("R-ORDER/O1", "-", "", "the verified command path is what is executed", "no assignment to exec.Cmd.Path / exec.Cmd.Args anywhere in scope", false)
+	}
+}
+
+// ---------- R-ORDER/O6 serve-after-print cannot bail out ----------
+
+// ruleServeServes — the ServerProtocol.Serve implementations are started
+// after the handshake line was printed; from then on the host believes the
+// announced address is being served. Every path through them must therefore
+// reach the accept loop on the listener they were given (grpc.Server.Serve(lis)
+// / lis.Accept()): nothing that can fail (and return) may be placed before it —
+// such set-up belongs in Init, which runs before the print.
+func ruleServeServes(c *Ctx) {
+	p := c.P
+	n := 0
+	for _, f := range p.Funcs {
+		if f.Decl == nil || f.Obj == nil || f.Obj.Name() != "Serve" || f.Decl.Recv == nil || f.Pkg.PkgPath != modPath {
+			continue
+		}
+		sig := f.Obj.Type().(*types.Signature)
+		if sig.Params().Len() != 1 || sig.Params().At(0).Type().String() != "net.Listener" || sig.Results().Len() != 0 {
+			continue
+		}
+		n++
+		info := f.Pkg.TypesInfo
+		g := p.Graph(f)
+		lis := sig.Params().At(0)
+		serves := func(m *Node) bool {
+			for _, call := range callsIn(m.Ast) {
+				switch p.CalleeName(f, call) {
+				case "google.golang.org/grpc.Server.Serve":
+					if len(call.Args) == 1 && identObj(info, call.Args[0]) == lis {
+						return true
+					}
+				case "net.Listener.Accept":
+					if se, ok := ast.Unparen(call.Fun).(*ast.SelectorExpr); ok && identObj(info, se.X) == lis {
+						return true
+					}
+				}
+			}
+			return false
+		}
+		seen := g.Reach([]*Node{g.Entry}, serves, nil)
+		if _, miss := seen[g.Exit]; miss {
+			c.R.Violate("R-ORDER/O6", p.Pos(f.Node()), f.Name, "Serve reaches the accept loop on every path", "the protocol server can return before it starts accepting on the listener whose address was already announced in the handshake line (fallible set-up placed after the print instead of in Init): the host connects to an address nobody serves", p.PathTo(seen, g.Exit))
+		} else {
+			c.R.Hold("R-ORDER/O6", p.Pos(f.Node()), f.Name, "Serve reaches the accept loop on every path", "no return before the listener given to Serve is being accepted on", true)
+		}
+	}
+	if n < 2 {
+		c.R.Undecided("R-ORDER/O6", "", "instance-floor", fmt.Sprintf("only %d ServerProtocol.Serve implementations found, 2 expected", n))
+	}
+}
